@@ -23,5 +23,9 @@ Definition youngb (s : state) : bool :=
                                  | Returned _ => true
                                  end) (pings s).
 
+(* the recorded defect class "identifier reused while still waited for" (key ping_id_wrap_collision):
+   a state that is not young *)
+Definition known_C19_wrap (s : state) : bool := negb (youngb s).
+
 Definition is_notify (i : id) (e : event) : bool :=
   match e with Notify j => j =? i | _ => false end.
